@@ -451,6 +451,27 @@ pub fn exec_special(ctx: &mut Ctx, ex: &mut Extra, hist: &mut Vec<String>, toks:
             let board = &mut ctx.board;
             guard(|| format!("perft {} {}", d, pool.install(|| mg.count_positions(d, board, t))))
         }
+        "perft2" => {
+            // perft2 <depth> <threads>: the same count started twice at the same moment on two threads, each
+            // with its own clone of the board, its own generator and its own rayon pool
+            let d: u8 = toks[1].parse().unwrap();
+            let threads: usize = toks[2].parse().unwrap();
+            let t = ctx.board.turn();
+            let barrier = std::sync::Arc::new(std::sync::Barrier::new(2));
+            let mut handles = vec![];
+            for _ in 0..2 {
+                let mut b = ctx.board.clone();
+                let bar = barrier.clone();
+                handles.push(std::thread::spawn(move || {
+                    let pool = rayon::ThreadPoolBuilder::new().num_threads(threads).build().unwrap();
+                    let mut mg = MoveGenerator::with_cache_capacity(4096);
+                    bar.wait();
+                    catch_unwind(AssertUnwindSafe(|| pool.install(|| mg.count_positions(d, &mut b, t))))
+                }));
+            }
+            let rs: Vec<String> = handles.into_iter().map(|h| match h.join() { Ok(Ok(n)) => n.to_string(), _ => "PANIC".to_string() }).collect();
+            format!("perft2 {} {} {}", d, rs[0], rs[1])
+        }
         "clicount" => {
             // clicount <depth>: the `chess count-positions --depth <depth>` driver itself
             // (game::position_counter::run_count_positions: one generator reused across the depths,
